@@ -149,10 +149,17 @@ fn resolve_promise(
     promise: &Gc<JsObject>,
     value: JsValue,
 ) -> Result<(), JsError> {
-    // Check if value is a thenable (another promise)
-    if let JsValue::Object(obj) = &value
-        && let ExoticObject::Promise(state) = &obj.borrow().exotic
-    {
+    // Check if value is a thenable (another promise); the object is not kept
+    // borrowed while handlers run
+    let adopted = if let JsValue::Object(obj) = &value {
+        match &obj.borrow().exotic {
+            ExoticObject::Promise(state) => Some(state.clone()),
+            _ => None,
+        }
+    } else {
+        None
+    };
+    if let Some(state) = adopted {
         // If the value is a promise, adopt its state
         let state_ref = state.borrow();
         match state_ref.status {
